@@ -336,9 +336,9 @@ VERIF_TARGET(c54_chainwork, nullptr, 24, 900,
              "height, nChainWork == sum over the naive ancestry of floor(2^256/(target+1)) by cpp_int (total < 2^256 by construction), GetAncestor at "
              "random heights; re-checked for every entry at the end; non-trivial = >= 1 fork and >= 3 distinct nBits on one ancestry")
 {
-    ChainSimOpts o;
-    auto simp = std::make_unique<ChainSim>(o);
-    ChainSim& sim = *simp;
+    verif::ChainSimOpts o;
+    auto simp = std::make_unique<verif::ChainSim>(o);
+    verif::ChainSim& sim = *simp;
     LOCK(cs_main);
     ChainstateManager& cm = sim.chainman();
     CBlockIndex* genesis = cm.ActiveChain()[0];
